@@ -22,6 +22,30 @@ MBOX = ("From alice@example.com Mon Jan  1 00:00:00 2024\nSubject: one\n\nbody o
         "From bob@example.com Tue Jan  2 00:00:00 2024\nSubject: two\n\nbody two\n")
 
 
+def _zip_with_mail():
+    import io
+    import zipfile
+    b = io.BytesIO()
+    with zipfile.ZipFile(b, "w") as z:
+        z.writestr("inner.txt", "inner\n")
+        z.writestr("mail.mbox", MBOX)
+        z.writestr("md/new/1.msg", "Subject: zipped\n\nx\n")
+        z.writestr("md/cur/", "")
+        z.writestr("md/tmp/", "")
+        zi = zipfile.ZipInfo("script.sh")
+        zi.external_attr = 0o100755 << 16
+        z.writestr(zi, "#!/bin/sh\necho zipped-script\n")
+        z.writestr("secret.txt", "zip-member-not-the-outside-one\n")
+    return b.getvalue().decode("latin-1")
+
+
+ZIPFIRST_CONFIG = {
+    "handlers.HandlerMultiplexer": {"handlers": "[ZIP.ZIPHandler, " + FULL_HANDLERS.replace("ZIP.ZIPHandler, ", "")[1:]},
+    "handlers.ZIP.ZIPHandler": {"enabled": "true"},
+    "handlers.file.CompressedFileHandler": {"decompressors": "{'gzip': 'zcat'}"},
+}
+
+
 def base_tree(rng):
     t = 1_700_000_000
     tree = [
@@ -43,6 +67,7 @@ def base_tree(rng):
         {"path": "md/new/1.msg", "data": "Subject: mdone\n\nhello\n"},
         {"path": "script.sh", "data": "#!/bin/sh\necho script-output\n", "mode": 0o755},
         {"path": "\xae.txt", "data": "latin\n"},
+        {"path": "arch.zip", "data": _zip_with_mail()},
     ]
     for e in tree:
         e["mtime"] = t
@@ -320,7 +345,10 @@ def run(tier):
             s = "/" + nm
             data, tls = gen.request_bytes(proto, s, gplus=rng.choice(["+", "!", "$"]))
             requests.append((proto, s, 1, False, data, tls, False))
-        for nm in ["mail.mbox|/MBOX-MESSAGE/1", "md|/MAILDIR-MESSAGE/1", "1/a.txt", "URL:http://x/../y", "script.sh?a b"]:
+        for nm in ["mail.mbox|/MBOX-MESSAGE/1", "md|/MAILDIR-MESSAGE/1", "1/a.txt", "URL:http://x/../y", "script.sh?a b",
+                   "arch.zip", "arch.zip/inner.txt", "arch.zip/mail.mbox", "arch.zip/mail.mbox|/MBOX-MESSAGE/1", "arch.zip/md",
+                   "arch.zip/md|/MAILDIR-MESSAGE/1", "arch.zip/script.sh", "arch.zip/script.sh?x", "arch.zip/secret.txt",
+                   "arch.zip/secretdir/x.txt", "arch.zip/secret.txt.abstract"]:
             s = "/" + nm
             data, tls = gen.request_bytes(proto, s)
             requests.append((proto, s, 1, False, data, tls, False))
@@ -332,8 +360,8 @@ def run(tier):
     tree = base_tree(rng)
     reqs_json = [{"data": gen.lat(d), "tls": t, "trace": True} for (_, _, _, _, d, t, _) in requests]
     worlds = []
-    for cfgname, cfg in (("default", None), ("full", FULL_CONFIG)):
-        for variant, cwd, spelling in (("a", None, None), ("b", "deep", "relative"), ("none", "root", "dotdot")):
+    for cfgname, cfg in (("default", None), ("full", FULL_CONFIG), ("zipfirst", ZIPFIRST_CONFIG)):
+        for variant, cwd, spelling in (("a", "parent", None), ("b", "parent", "relative"), ("none", "root", "dotdot")):
             worlds.append({"op": "world", "tree": tree, "outside": outside_variant(variant), "config": cfg,
                            "cwd": cwd, "root_spelling": spelling, "requests": reqs_json,
                            "_cfg": cfgname, "_variant": variant})
@@ -365,10 +393,11 @@ def run(tier):
                     continue_rel = False
                 inside = npath == root or npath.startswith(root + "/")
                 infra = (npath.endswith((".py", ".pyc", "/mime.types")) or "__pycache__" in npath
-                         or npath.startswith(("/dev/", "/proc/")))
+                         or npath.startswith(("/dev/", "/proc/", "/root/.pyenv/", "/usr/lib/", "/usr/local/lib/", "/venv/")))
                 if continue_rel:
                     # resolve against the world's cwd
-                    cwdp = {"root": root, "deep": os.path.join(tmp, "x", "y", "z"), None: "/repo"}.get(w["cwd"], "/repo")
+                    cwdp = {"root": root, "deep": os.path.join(tmp, "x", "y", "z"), "parent": os.path.dirname(root),
+                            None: "/repo"}.get(w["cwd"], "/repo")
                     npath = os.path.normpath(os.path.join(cwdp, path))
                     inside = npath == root or npath.startswith(root + "/")
                 if not inside and not infra:
@@ -393,7 +422,7 @@ def run(tier):
                                    "world": {k: w[k] for k in ("tree", "outside", "config", "cwd", "root_spelling")}},
                                   tag=f"not-notfound:{kind}:{proto}")
     # (3) non-interference: same config, different outside worlds / cwd / root spelling => identical bytes
-    for cfgname in ("default", "full"):
+    for cfgname in ("default", "full", "zipfirst"):
         group = [(w, r) for w, r in zip(worlds, wres) if w["_cfg"] == cfgname]
         ref_w, ref_r = group[0]
         for w, r in group[1:]:
